@@ -751,6 +751,13 @@ pub fn run(sh: &mut Shard) {
             check_case(sh, &mode, "corpus", &path, &text, None, &empty, "corpus");
         }
     }
+    if mode == "c02" {
+        for (k, cell) in crate::engines::c02cells::CELLS.iter().enumerate() {
+            if k % nshards == shard {
+                semantic_cell(sh, cell);
+            }
+        }
+    }
     let mut i = 0u64;
     while sh.time_left() {
         i += 1;
@@ -775,6 +782,57 @@ fn check_case_gen(sh: &mut Shard, mode: &str, feats: &str, text: &str, p: &Progr
     let label = format!("gen:{seed}");
     let _ = extended;
     check_case(sh, mode, &format!("gen|{feats}"), &label, text, Some(p), trace, feats);
+}
+
+/// One hand-derived semantic cell (engines/c02cells.rs): run it in the real runtime and compare the listed variables.
+fn semantic_cell(sh: &mut Shard, cell: &crate::engines::c02cells::Cell) {
+    let case = json!({"label": format!("cell:{}", cell.name), "features": "semantic-cell", "text": cell.text, "trace": []});
+    if !sh.begin("semantic-cell", &case) {
+        return;
+    }
+    let text = cell.text.to_string();
+    let cycles = cell.cycles;
+    let r = catch(move || -> Result<Vec<(Vec<(String, String)>, String)>, String> {
+        let mut h = trust_runtime::harness::TestHarness::from_source(&text).map_err(|e| e.to_string())?;
+        let mut out = Vec::new();
+        for _ in 0..cycles {
+            h.advance_time(trust_runtime::value::Duration::from_millis(10));
+            let r = h.cycle();
+            out.push((crate::walk::snapshot(h.runtime().storage()), format!("{:?}", r.errors)));
+        }
+        Ok(out)
+    });
+    match r {
+        Err(p) => {
+            sh.count("cases_skipped_panic_reported_by_C01", 1);
+            sh.note(format!("semantic cell {} panicked: {p}", cell.name));
+        }
+        Ok(Err(e)) => {
+            sh.count("semantic_cells_rejected_by_compiler", 1);
+            sh.note(format!("semantic cell {} rejected: {}", cell.name, e.lines().next().unwrap_or("")));
+        }
+        Ok(Ok(obs)) => {
+            sh.count("semantic_cells_checked", 1);
+            let mut bad = Vec::new();
+            for (ci, path, want) in cell.expect {
+                let Some((snap, errs)) = obs.get(*ci) else { continue };
+                if errs != "[]" {
+                    bad.push(format!("cycle {ci}: errors {errs}"));
+                    break;
+                }
+                let got = snap.iter().find(|(k, _)| k == path).map(|(_, v)| v.as_str());
+                sh.count("semantic_cell_values_compared", 1);
+                if got != Some(*want) {
+                    bad.push(format!("cycle {ci}: {path} = {} in the runtime, {want} by IEC semantics", got.unwrap_or("<missing>")));
+                }
+            }
+            sh.nontrivial(&("semantic-cell", cell.name));
+            if !bad.is_empty() {
+                sh.violation(format!("cell|{}", cell.name), bad.join("; "), case.clone());
+            }
+        }
+    }
+    sh.end();
 }
 
 #[allow(dead_code)]
